@@ -236,9 +236,10 @@ def computed_and_replace(ctx):
     expect = {'sum': ['lambda _v, _f, _r: sum(_v)'], 'max': ['lambda _v, _f, _r: max(_v)'], 'min': ['lambda _v, _f, _r: min(_v)'],
               'avg': ['lambda _v, _f, _r: sum(_v) / len(_v)', 'lambda _v, _f, _r: statistics.mean(_v)'],
               'constant': ['lambda _v, _f, _r: _f'], 'format': ['lambda _v, _f, _r: _f.format(**_r)'],
-              'multiply': ['lambda _v, _f, _r: functools.reduce(lambda _x, _y: _x * _y, _v)', 'lambda _v, _f, _r: math.prod(_v)'],
+              'multiply': ['lambda _v, _f, _r: functools.reduce(lambda _x, _y: _x * _y, _v)', 'lambda _v, _f, _r: math.prod(_v)',
+                           'lambda _v, _f, _r: functools.reduce(operator.mul, _v)'],
               'join': ['lambda _v, _f, _r: _f.join([str(_x) for _x in _v])', 'lambda _v, _f, _r: _f.join((str(_x) for _x in _v))',
-                       'lambda _v, _f, _r: _f.join(map(str, _v))']}
+                       'lambda _v, _f, _r: _f.join(map(str, _v))', 'lambda _v, _f, _r: _f.join(list(map(str, _v)))']}
     for k, pats in expect.items():
         lam = table[k].args[0] if k in table and isinstance(table[k], ast.Call) and table[k].args else None
         run.check(lam is not None and any(match_expr(p_, lam) is not None for p_ in pats), 'CMP',
